@@ -1,0 +1,18 @@
+//go:build verif
+// +build verif
+
+package canary
+
+import "net"
+
+// Verification hook (build tag "verif"): VerifSocketGap, when set, is called by Socket.Read
+// after it found its receive buffer empty, before it waits for the receive loop's
+// notification - a harness can hold the reader there and let a pushed segment arrive in
+// between. Add-only; the regular build has an empty verifSocketGap.
+var VerifSocketGap func(local, remote net.Addr)
+
+func verifSocketGap(s Socket) {
+	if f := VerifSocketGap; f != nil {
+		f(s.laddr, s.raddr)
+	}
+}
